@@ -17,6 +17,12 @@ META = {
 
 
 def run(ctx):
+    # sources with several areas over shared paths, fed to the builder in ID order and in reverse ID order (areas
+    # arrive before their paths and wait in the validator's queue)
+    sworld.run_static(
+        ctx, "C01", 3,
+        variants=[{"impl": "compact", "cores": 1, "order": "rev", "max": (36, 200)}, {"impl": "compact", "cores": 2, "max": (8, 100)}],
+        sections=["lookup", "each", "problems", "build", "observe"], rule="", finish=False)
     return sworld.run_static(
         ctx, "C01", 1,
         variants=[{"impl": "compact", "cores": 1, "max": (45, 600)}, {"impl": "compact", "cores": 3, "max": (15, 200)}],
